@@ -1,0 +1,46 @@
+//go:build verif
+
+package webtransport
+
+// Contracts for the WebTransport framing layer. Comment-only file, compiled only
+// with the build tag "verif"; read by /verif/govc, which generates and discharges
+// the verification conditions. Trusted contracts of bufio, io, encoding/binary are
+// in /verif/specs/std.spec (uf_u8_in(br, k) is the k-th byte of the input stream,
+// br.$pos the number of bytes consumed).
+
+//@ spec in16(b *bufio.Reader, p int) uint16 = uint16(uf_u8_in(b, p)) << 8 | uint16(uf_u8_in(b, p+1))
+//@ spec in64(b *bufio.Reader, p int) uint64 = uint64(in16(b, p)) << 48 | uint64(in16(b, p+2)) << 32 | uint64(in16(b, p+4)) << 16 | uint64(in16(b, p+6))
+
+//@ func (*Conn).setReadRemaining(n)
+//@   props C14, C15, C09
+//@   requires c != nil
+//@   modifies c.readRemaining
+//@   ensures [C15.neg] n < 0 ==> result == ErrReadLimit && c.readRemaining == old(c.readRemaining)
+//@   ensures [C15.set] n >= 0 ==> result == nil && c.readRemaining == n
+
+//@ func (*Conn).read(n)
+//@   props C14, C15, C09
+//@   requires c != nil && c.br != nil && n >= 0
+//@   modifies c.br.$pos, c.br.$buffered
+//@   ensures len(result0) <= n
+//@   ensures err == nil ==> len(result0) == n
+//@   ensures err == nil ==> c.br.$pos == old(c.br.$pos) + n
+//@   ensures forall k int :: 0 <= k && k < len(result0) ==> result0[k] == uf_u8_in(c.br, old(c.br.$pos) + k)
+
+//@ func (*Conn).advanceFrame()
+//@   props C14, C15, C10, C09
+//@   requires c != nil && c.br != nil && c.session != nil && c.readRemaining >= 0 && c.readLength >= 0
+//@   modifies c.readRemaining, c.readLength, c.br.$pos, c.br.$buffered
+//@   let p0 = old(c.br.$pos) + old(c.readRemaining)
+//@   let b0 = uf_u8_in(c.br, p0)
+//@   let n7 = int64(b0 & 0x7f)
+//@   let L  = n7 == 126 ? int64(in16(c.br, p0+1)) : (n7 == 127 ? int64(in64(c.br, p0+1)) : n7)
+//@   ensures [C14.dec.kind]  result1 == nil ==> result0 == int((b0 & 0x80) >> 7) + 1
+//@   ensures [C14.dec.kind2] result1 == nil ==> (result0 == BinaryMessage <==> b0 & 0x80 != 0) && (result0 == TextMessage <==> b0 & 0x80 == 0)
+//@   ensures [C14.dec.len]   result1 == nil ==> c.readRemaining == L && L >= 0
+//@   ensures [C14.dec.pos]   result1 == nil ==> c.br.$pos == p0 + (n7 == 126 ? 3 : (n7 == 127 ? 9 : 1))
+//@   ensures [C15.acc]       result1 == nil ==> c.readLength == old(c.readLength) + L && c.readLength >= 0
+//@   ensures [C15.limit,C10.wt] result1 == nil ==> (c.readLimit <= 0 || c.readLength <= c.readLimit)
+//@   ensures [C15.noframe]   result1 != nil ==> result0 == noFrame
+//@   ensures [C15.closes,C10.wtclose] calls((*Conn).CloseWithError) <= 1 && (calls((*Conn).CloseWithError) == 1 ==> result1 != nil)
+//@   ensures [C15.rem]       c.readRemaining >= 0
